@@ -109,7 +109,9 @@ static long child_index(const cJSON *parent, const cJSON *p)
     const cJSON *c;
     long i = 0;
     if (!parent || !p) return -1;
-    for (c = parent->child; c; c = c->next, i++) { if (c == p) return i; if (i > 10000000) break; }
+    WALK_BEGIN();
+    for (c = parent->child; c; c = c->next, i++) { if (c == p) { WALK_END(); return i; } if (i > 10000000) break; }
+    WALK_END();
     return -1;
 }
 
@@ -161,7 +163,7 @@ static void op_chk(toks *t, int flags)
     if (r == NULL) { rlog("chk -"); return; }
     if (wf_check(r, flags, T(0))) { rlog("chk bad"); return; }
     bb_reset(&scratch);
-    if (tn_dump(&scratch, r) < 0) { cjv_violation("wf/cycle-or-runaway", "dump did not terminate"); rlog("chk bad"); return; }
+    { int rc = tn_dump(&scratch, r); if (rc < 0) { cjv_violation(rc == -2 ? "wf/dangling-pointer" : "wf/cycle-or-runaway", rc == -2 ? "the tree reaches memory that is not a live block" : "dump did not terminate"); rlog("chk bad"); return; } }
     rlog("chk %08x:%zu", cjv_crc32(scratch.p, scratch.n), scratch.n);
 }
 
@@ -169,7 +171,7 @@ static void op_tn(toks *t)
 {
     cJSON *r = tk_item(T(1));
     bb_reset(&scratch);
-    if (tn_dump(&scratch, r) < 0) { cjv_violation("wf/cycle-or-runaway", "dump did not terminate"); rlog("tn bad"); return; }
+    { int rc = tn_dump(&scratch, r); if (rc < 0) { cjv_violation(rc == -2 ? "wf/dangling-pointer" : "wf/cycle-or-runaway", rc == -2 ? "the tree reaches memory that is not a live block" : "dump did not terminate"); rlog("tn bad"); return; } }
     rlog("tn %s", scratch.p);
 }
 
@@ -569,7 +571,9 @@ static void op_slot(toks *t)
     else if (!strcmp(op, "child")) {   /* child d s idx : navigation without a library call */
         cJSON *s, *c; long i; ARGN(3);
         s = tk_item(T(2)); i = tk_int(T(3));
+        WALK_BEGIN();
         for (c = s ? s->child : NULL; c && i > 0; c = c->next) i--;
+        WALK_END();
         set_slot(T(1), c);
         rptr(c);
     }
